@@ -94,3 +94,16 @@ Theorem C14_errors_within : forall stop m b src, wf_ms m ->
   end.
 Proof. exact errors_within. Qed.
 Print Assumptions C14_errors_within.
+
+(* the faults: every error a parse reports is a tag-with-whitespace error, an unknown-language error, a
+   ragged-table error (each with its own '(line:column): ' prefix), or the `unexpected` error of a line (or the
+   end of file) that the parser logged as unexpected in the state it was in *)
+Theorem C14_error_origins : forall stop m b src,
+  let ok (c : pctx) e := fault e \/ exists t s exp, In (Automaton.EvX t s) (Automaton.log c) /\ e = unexpected t exp in
+  match parse_tokens stop (scan src) m b with
+  | Automaton.Raise1 e c => ok c e
+  | Automaton.RaiseC es c => Forall (ok c) es
+  | _ => True
+  end.
+Proof. exact error_origins. Qed.
+Print Assumptions C14_error_origins.
